@@ -172,7 +172,10 @@ def extension_sites(fv):
         k = n.get("k")
         c = cname(n) if k in ("call", "mcall") else ""
         if k == "call" and c.endswith("::transmute"):
-            arg = n["args"][0]
+            arg = _strip_ref(n["args"][0])
+            if arg.get("k") == "local":           # `let borrowed: &[u8] = Arc::as_ref(&_data); transmute(borrowed)`
+                o_ = fv.origin(arg)
+                arg = _strip_ref(o_) if o_ is not None else arg
             src = None
             if arg.get("k") in ("call", "mcall") and "Arc" in rname(arg) and rname(arg).endswith("as_ref"):
                 src = _strip_ref(call_args(arg)[0])
